@@ -2,8 +2,10 @@ package drivers
 
 import (
 	"crypto/x509"
+	"crypto/x509/pkix"
 	"fmt"
 	"math/big"
+	"os"
 	"strings"
 	"time"
 
@@ -111,6 +113,14 @@ func newC05Cast() *c05Cast {
 		}
 		c.leafLike[v.name] = l
 	}
+	for _, n := range []string{"rekeyed-CA-configured-as-trusted-responder-client-AKI-names-neither-key", "issuer-embedded-client-AKI-names-neither-key-rekeyed-CA-trusted"} {
+		l := world.Issue(c.issuer, world.CertOpt{CN: "c05 client odd aki", Serial: big.NewInt(4260), KeyKind: "rsa", KeyIdx: 1, OCSP: []string{ocspURL},
+			ExtraExt: []pkix.Extension{world.AKIExt([]byte{0xde, 0xad, 0xbe, 0xef, 1, 2, 3, 4, 5, 6, 7, 8, 9, 10, 11, 12, 13, 14, 15, 16}, nil, nil)}})
+		if string(l.Cert.AuthorityKeyId) == string(c.issuer.Cert.SubjectKeyId) || string(l.Cert.AuthorityKeyId) == string(c.sibling.Cert.SubjectKeyId) || len(l.Cert.AuthorityKeyId) == 0 {
+			panic("c05 cast: odd-AKI leaf")
+		}
+		c.leafLike[n] = l
+	}
 	return c
 }
 
@@ -141,7 +151,8 @@ func (c c05Case) String() string {
 var c05Signers = []string{"issuer", "delegated-eku", "delegated-no-eku", "client-own", "stranger-embedded", "stranger-bare", "sibling-ca", "delegated-eku-bare",
 	"delegated-eku-any", "delegated-eku-clientauth", "client-own-eku-any", "stranger-embedded-ocspsigning", "sibling-delegated-eku",
 	"client-own-named-like-issuer-case", "client-own-named-like-issuer-blank", "client-own-named-like-issuer-order",
-	"configured-trusted-responder-of-another-CA-bare", "configured-trusted-responder-of-another-CA-embedded"}
+	"configured-trusted-responder-of-another-CA-bare", "configured-trusted-responder-of-another-CA-embedded",
+	"rekeyed-CA-configured-as-trusted-responder-client-AKI-names-neither-key", "issuer-embedded-client-AKI-names-neither-key-rekeyed-CA-trusted"}
 
 // leafFor: the certificate whose status is asked (a special leaf for the case where the client answers about itself)
 func (k *c05Cast) leafFor(c c05Case) *world.Ident {
@@ -197,6 +208,13 @@ func (k *c05Cast) build(c c05Case) (body []byte, authentic bool) {
 		a.Signer, a.EmbedCert = k.foreignResponder, true
 	case "sibling-delegated-eku":
 		a.Signer, a.EmbedCert = k.siblingDeleg, true
+	case "rekeyed-CA-configured-as-trusted-responder-client-AKI-names-neither-key":
+		// the client certificate's authority key identifier names a key which no certificate at hand carries; a
+		// certificate with the issuer's name and ANOTHER key (the re-keyed CA of a former generation) is configured as
+		// trusted responder certificate and signs: that key is provably not the issuer's key
+		a.Signer = k.sibling
+	case "issuer-embedded-client-AKI-names-neither-key-rekeyed-CA-trusted":
+		a.Signer, a.EmbedCert = k.sibling, true
 	case "client-own-named-like-issuer-case", "client-own-named-like-issuer-blank", "client-own-named-like-issuer-order":
 		// signed by the client's own key, the certificate is not sent along: only a checker which takes the client
 		// certificate for its own issuer can verify this
@@ -232,6 +250,9 @@ func (k *c05Cast) run(c c05Case) (used, cached bool, v1, v2 Verdict, authentic b
 		if strings.HasPrefix(c.Signer, "configured-trusted-responder") {
 			trusted = []*x509.Certificate{k.foreignResponder.Cert}
 		}
+		if strings.Contains(c.Signer, "client-AKI-names-neither-key") {
+			trusted = []*x509.Certificate{k.sibling.Cert}
+		}
 		w := NewOW(true, 10*time.Minute, trusted, nil)
 		if c.AfterSibling {
 			const sibURL = "http://ocsp.test/sibling"
@@ -254,6 +275,59 @@ func (k *c05Cast) run(c c05Case) (used, cached bool, v1, v2 Verdict, authentic b
 	}
 	used = v1.Err == "" && v1.Panic == ""
 	cached = v2.Err == "" && v2.Panic == ""
+	return
+}
+
+// c05Reload: the whole module, two generations of the configuration in one process. The file named by
+// trusted_responder_certs_files holds a certificate with the issuer's name and another key (a former generation of
+// the re-keyed CA) while the first validator instance lives; then the file is replaced - same name, same size, same
+// modification time - by an unrelated responder certificate and a new instance is provisioned. For the new instance a
+// response signed with the former certificate's key is signed by nobody it knows: no answer. (What the first instance
+// makes of it is not judged.)
+func c05Reload(chk *fw.Check, k *c05Cast) (evals int) {
+	leaf := world.Issue(k.issuer, world.CertOpt{CN: "c05 client without aki", Serial: big.NewInt(4270), KeyKind: "rsa", KeyIdx: 1, OCSP: []string{ocspURL}, NoAKI: true})
+	leaf = world.WithoutExtension(leaf, k.issuer, world.OIDAKI)
+	for _, status := range []int{xocsp.Good, xocsp.Revoked} {
+		for _, embed := range []bool{false, true} {
+			evals++
+			var v1, v2 Verdict
+			var perr string
+			res := seqWorld(func() {
+				net := world.NewNet()
+				files := FreshDir("c05r")
+				defer os.RemoveAll(files)
+				body := world.BuildOCSP(world.OCSPAnswer{Status: status, Serial: leaf.Cert.SerialNumber, Issuer: k.sibling, Signer: k.sibling, EmbedCert: embed, ThisUpdate: vsched.Epoch.Add(-time.Minute)})
+				net.Serve(ocspURL, "signed-by-former-generation", body)
+				chain := world.Chain(leaf, k.issuer, k.p.Root)
+				for gen, cert := range []*x509.Certificate{k.sibling.Cert, k.foreignResponder.Cert} {
+					f := WritePEMSameStat(files, "responder.pem", cert)
+					w := NewTW(TWOpt{Mode: "ocsp_only", Net: net, OCSP: &config.OCSPConfig{OCSPAIAStrict: true, TrustedResponderCertsFiles: []string{f}}})
+					if err := w.Provision(); err != nil {
+						perr = fmt.Sprintf("generation %d: %v", gen+1, err)
+						return
+					}
+					vsched.Drain()
+					v := w.Handshake(chain)
+					if gen == 0 {
+						v1 = v
+					} else {
+						v2 = v
+					}
+					w.Cleanup()
+					vsched.Drain()
+				}
+			})
+			label := fmt.Sprintf("status=%d embedded=%v", status, embed)
+			if perr != "" || res.Verdict != vsched.OK {
+				chk.Violation("C05|harness|reload", label+": "+perr+" "+res.Verdict.String()+" "+firstLines(res.Detail, 3), nil)
+				continue
+			}
+			if v2.Panic != "" || v2.Err == "" {
+				chk.Violation("C05|unauthentic-used|signer=certificate-the-trusted-responder-file-held-before-it-was-replaced",
+					fmt.Sprintf("%s: the validator provisioned after the trusted responder file was replaced (same size, same modification time) let a response signed with the replaced certificate's key decide: %s (the instance before the replacement: %s)", label, v2, v1), nil)
+			}
+		}
+	}
 	return
 }
 
@@ -364,6 +438,8 @@ func RunC05(tier string, args []string) int {
 			flips++
 		}
 	}
+	reloads := c05Reload(chk, k)
+	evals += reloads
 	if len(samples) == 0 {
 		samples = []string{c05Case{Signer: "stranger-bare", Status: xocsp.Good, FlipBit: -1}.String(), c05Case{Signer: "issuer", Status: xocsp.Revoked, FlipBit: 777, FlipSeed: "issuer-revoked"}.String()}
 	}
